@@ -1,6 +1,7 @@
 ---------------------------- MODULE MC_TxPool ----------------------------
 (* Model-checking / simulation instance of TxPool: bounded menus for the environment's choices and a     *)
-(* history variable (outside VIEW) from which behaviours are printed as walks for the harness (B2).      *)
+(* history variable (outside VIEW; JSON action labels) that `tlc -simulate file=..` writes with each       *)
+(* behaviour: tools/txpool_common.py turns those files into walks for the harness (B2).                   *)
 EXTENDS TxPool, Json
 
 CONSTANT WalkLen
